@@ -362,6 +362,7 @@ func DecodeExclusive[T any](c Cursor, obj Object, decode func(Cursor, Object, bo
 	}
 	if p, ok := x.wip[key]; ok {
 		x.mu.Unlock()
+		verifYield("excl-wait")
 		<-p.done
 		if p.err != nil {
 			return zero, p.err
@@ -371,13 +372,16 @@ func DecodeExclusive[T any](c Cursor, obj Object, decode func(Cursor, Object, bo
 	p := &pending{done: make(chan struct{})}
 	x.wip[key] = p
 	x.mu.Unlock()
+	verifYield("excl-run")
 
 	res, err := Decode(c, obj, decode)
+	verifYield("excl-decoded")
 
 	x.mu.Lock()
 	p.val, p.err = res, err
 	delete(x.wip, key)
 	x.mu.Unlock()
+	verifYield("excl-handover")
 	close(p.done)
 
 	return res, err
